@@ -598,7 +598,7 @@ impl Family for ClsgrpFamily {
     fn count(&self, _prop: &str, tier: Tier) -> u64 {
         match tier {
             Tier::Quick => 3000,
-            Tier::Thorough => 24000,
+            Tier::Thorough => 16000,
         }
     }
 
